@@ -35,7 +35,7 @@ mu = sp.Symbol('p1', real=True)
 
 def densities():
     return {
-        'uniform': (1 / (b - a), [{a: 1, b: 4, x: 2}, {a: sp.Rational(1, 2), b: 3, x: sp.Rational(5, 2)}]),
+        'uniform': (1 / (b - a), [{a: 1, b: 4, x: 2}, {a: sp.Rational(1, 2), b: 3, x: sp.Rational(5, 2)}, {a: -5, b: 5, x: sp.Rational(5, 2)}]),
         'gaussian': (sp.exp(-(x - a) ** 2 / (2 * b ** 2)) / (b * sp.sqrt(2 * sp.pi)), [{a: 1, b: 2, x: 3}, {a: sp.Rational(1, 3), b: sp.Rational(7, 5), x: 2},
                                                                                             {a: 0, b: 1, x: 9}, {a: 0, b: sp.Rational(1, 10), x: -1}, {a: 2, b: 1, x: 30}]),
         'exponential': (a * sp.exp(-a * x), [{a: 2, x: 3}, {a: sp.Rational(1, 3), x: sp.Rational(7, 2)}, {a: 2, x: 30}, {a: 1, x: 400}]),
@@ -76,17 +76,24 @@ def method(cls, name, raw=False):
     if name not in meths:
         raise AnalysisError('anchor vanished: PIDInterface.%s' % name)
     # a prior that hands over to a sibling (`return self.other_prior(name, value)`) is analysed with the sibling's body in place
-    return meths[name] if raw else util.inline_tail_self_calls(meths[name], meths)
+    return meths[name] if raw else util.inline_helper_calls(util.inline_tail_self_calls(meths[name], meths), meths)
+
+
+def _v(pt, name):
+    for k_, v_ in pt.items():
+        if str(k_) == name:
+            return v_
+    raise KeyError(name)
 
 
 SUPPORT = {
-    'uniform': lambda pt: pt[a] < pt[x] < pt[b],
-    'gaussian': lambda pt: pt[b] > 0,
-    'exponential': lambda pt: pt[a] > 0 and pt[x] > 0,
-    'gamma': lambda pt: pt[a] > 0 and pt[b] > 0 and pt[x] > 0,
-    'beta': lambda pt: pt[a] > 0 and pt[b] > 0 and 0 < pt[x] < 1,
-    'log-uniform': lambda pt: 0 < pt[a] < pt[x] < pt[b],
-    'log-gaussian': lambda pt: pt[b] > 0 and pt[x] > 0,
+    'uniform': lambda pt: _v(pt, 'p1') < _v(pt, 'x') < _v(pt, 'p2'),
+    'gaussian': lambda pt: _v(pt, 'p2') > 0,
+    'exponential': lambda pt: _v(pt, 'p1') > 0 and _v(pt, 'x') > 0,
+    'gamma': lambda pt: _v(pt, 'p1') > 0 and _v(pt, 'p2') > 0 and _v(pt, 'x') > 0,
+    'beta': lambda pt: _v(pt, 'p1') > 0 and _v(pt, 'p2') > 0 and 0 < _v(pt, 'x') < 1,
+    'log-uniform': lambda pt: 0 < _v(pt, 'p1') < _v(pt, 'x') < _v(pt, 'p2'),
+    'log-gaussian': lambda pt: _v(pt, 'p2') > 0 and _v(pt, 'x') > 0,
 }
 
 
@@ -124,10 +131,16 @@ def check_density(ctx, cls):
         where = ctx.loc('pid_interfaces', f)
         xname = f.args.args[2].arg
 
+        # the bounds of a uniform prior and the location of a (log-)gaussian are any real numbers: no sign is assumed for them
+        real_params = {'uniform': (1, 2), 'gaussian': (1,), 'log-gaussian': (1,)}.get(fam, ())
+
+        def psym(i):
+            return sp.Symbol('p%d' % i, real=True) if i in real_params else sp.Symbol('p%d' % i, positive=True)
+
         def leaf(n, env, se):
             if isinstance(n, ast.Subscript) and isinstance(n.slice, ast.Constant) and isinstance(n.slice.value, int) \
                     and isinstance(n.value, ast.Subscript):
-                return sp.Symbol('p%d' % n.slice.value, positive=True)
+                return psym(n.slice.value)
             if isinstance(n, ast.Attribute) and src(n) == 'self.prior':
                 return sp.Symbol('PRIOR')
             return None
@@ -160,15 +173,22 @@ def check_density(ctx, cls):
         except symx.Unsupported as e:
             raise AnalysisError('%s: %s' % (meth, e))
         density, points = dens[fam]
+        resym = {a: psym(1), b: psym(2)}
+        density = density.xreplace(resym)
+        points = [{resym.get(k_, k_): v_ for k_, v_ in pt_.items()} for pt_ in points]
         points = list(points) + boundary_points(fam, cases, points)
         problems = []
         n_in = 0
         for pt in points:
             pt = dict(pt)
             pt[sp.Symbol('PRIOR')] = 1
-            hit = None
+            # the cases (paths) this point can take: every condition that can be decided at the point must agree; a condition about
+            # something the point does not fix (e.g. whether the prior list carries a keyword) leaves both sides open, and the density
+            # must come out on each of them
+            hits = []
             for c in cases:
                 ok = True
+                free = []
                 for cond, truth in c.conds:
                     try:
                         if any(getattr(fn.func, '__name__', '') == 'cmp_Is' for fn in cond.atoms(sp.Function)):
@@ -177,23 +197,34 @@ def check_density(ctx, cls):
                             v = True
                         else:
                             v = cond.xreplace(pt)
-                            v = bool(v) if v in (sp.true, sp.false) else bool(sp.simplify(v))
+                            if v not in (sp.true, sp.false):
+                                v2 = sp.simplify(v)
+                                v = v2 if v2 in (sp.true, sp.false) else None
+                            v = bool(v) if v is not None else None
                     except Exception:
                         v = None
-                    if v is None or v != truth:
+                    if v is None:
+                        free.append(str(cond)[:50])
+                        continue
+                    if v != truth:
                         ok = False
                         break
                 if ok:
-                    hit = c
-                    break
-            if hit is None or hit.value == sp.Symbol('RAISE'):
+                    hits.append((c, free))
+            if not hits or all(c.value == sp.Symbol('RAISE') for c, _ in hits):
                 problems.append('no returning path for the in-support point %s' % pt)
                 continue
-            got = sp.N(hit.value.xreplace(pt), 30)
             exp = sp.N(sp.log(density).xreplace(pt), 30)
             n_in += 1
-            if not (got.is_number and abs(got - exp) < sp.Float('1e-20')):
-                problems.append('at %s returns %s, log-density is %s' % ({str(k): str(v) for k, v in pt.items() if str(k) != 'PRIOR'}, sp.N(got, 8), sp.N(exp, 8)))
+            for hit, free in hits:
+                if hit.value == sp.Symbol('RAISE'):
+                    if not free:
+                        problems.append('the in-support point %s raises' % pt)
+                    continue
+                got = sp.N(hit.value.xreplace(pt), 30)
+                if not (got.is_number and abs(got - exp) < sp.Float('1e-20')):
+                    problems.append('at %s%s returns %s, log-density is %s' % ({str(k): str(v) for k, v in pt.items() if str(k) != 'PRIOR'},
+                                    (' when ' + ' / '.join(free)) if free else '', sp.N(got, 8) if got.is_number else got, sp.N(exp, 8)))
         ctx.evaluations = getattr(ctx, 'evaluations', 0) + len(points)
         ctx.ob('R16.1-density', fam, not problems and n_in == len(points), where,
                '%s returns log(%s) inside the support, far tails included (the density is positive there, however small)' % (meth, density),
